@@ -1,6 +1,6 @@
 SPECIFICATION Spec
 CONSTANTS MaxN = 2
-          Vals = {-1, 0, 2}
+          Vals <- ValsWithNegative
 INVARIANT Commutes
 INVARIANT LastIsTotal
 CHECK_DEADLOCK FALSE
